@@ -157,6 +157,14 @@ func replayMain(path string) int {
 		}
 		s := newSeatRun(v.Prop, []string{v.Prop}, sc.Max, rep, v.Seed, 0, caseRand(v.Seed, 0, 0))
 		runSeatHistory(s, parseSeatHistory(sc.Text))
+	case "world":
+		var wc WorldCase
+		if err := json.Unmarshal(v.Case, &wc); err != nil {
+			fmt.Fprintln(os.Stderr, "bad world case:", err)
+			return 2
+		}
+		w := newWorld(v.Prop, []string{v.Prop}, wc.Max, wc.Min, rep, v.Seed, 0, caseRand(v.Seed, 0, 0))
+		replayWorld(w, wc.History)
 	default:
 		fmt.Printf("  kind %q is replayed by re-running the check with the recorded seed: ./check %s %s (VERIF_SEED=%d)\n  recorded case: %s\n", v.Kind, v.Prop, f.Tier, v.Seed, string(v.Case))
 		return 0
